@@ -743,7 +743,7 @@ def check_topdown(chk, case, providers=("LabelsReader", "VideoReader")):
                 ccx, ccy, cv, = stubs.argmax_near(ce["cms"], gx, gy)
                 dc = stubs.integral_offset(ce["cms"], ccx, ccy) if refine == "integral" else (0.0, 0.0)
                 meta.append({"fr": fr, "ai": ai_, "ccell": (ccx, ccy), "cval": cv, "dc": dc, "eff": eff,
-                             "chw": ce["hw"]})
+                             "chw": ce["hw"], "cshape": ce["cms"].shape})
         # instance-stage offsets come from the maps rendered for the implementation's rows
         row_of = {(r["code"], r["animal"]): r for r in rows}
         for mt in meta:
@@ -858,6 +858,10 @@ def check_topdown(chk, case, providers=("LabelsReader", "VideoReader")):
             n_w = math.ceil(pad_to(cw, ms_i) / os_i)
             n_h = math.ceil(pad_to(ch, ms_i) / os_i)
             robust = robust_inside(case, fr, an, eff)
+            why_cborder = []
+            csh = mt.get("cshape")
+            cborder = refine == "integral" and csh is not None and not interior(mt["ccell"][0], mt["ccell"][1], csh)
+            in_impl = True
             # the Lean twin (`Decode.robustAxis`, hypothesis of `topdown_roundtrip_robust`) must agree per keypoint
             for k, p in enumerate(an.pts):
                 if p is not None and mt["rob"][k] is not None and mt["rob"][k] != robust[k]:
@@ -890,11 +894,28 @@ def check_topdown(chk, case, providers=("LabelsReader", "VideoReader")):
                             chk.tag("integral_patch_crosses_border_sampled")
                             w = oracle_point(p, r["pts"][k], r["vals"][k], bnd, f"node {k} (crop cell {cx},{cy})")
                             if w:
-                                why_border.append(w)
+                                g = r["pts"][k]
+                                capped = g is not None and max(abs(g[0] - p[0]), abs(g[1] - p[1])) <= 2 * bnd + TOL
+                                (why_border if capped else why).append(w)   # F-C02b covers at most ONE cell of error
                             continue
                 w = oracle_point(p, r["pts"][k], r["vals"][k], bnd, f"node {k}")
                 if w:
-                    why.append(w)
+                    # F-C02e: the CENTROID-stage refinement patch crosses the centroid map's border, the crop is
+                    # displaced by up to one centroid cell and a keypoint that a correct centroid stage keeps in
+                    # the crop falls outside the crop actually taken; covered only while the keypoint is still
+                    # returned and the error stays below one centroid cell + half an instance cell
+                    g = r["pts"][k] if p is not None else None
+                    cap_c = os_c / (case["sc"] * eff) + bnd
+                    if (p is not None and cborder and not in_impl and g is not None
+                            and max(abs(g[0] - p[0]), abs(g[1] - p[1])) <= cap_c + TOL):
+                        why_cborder.append(w)
+                    else:
+                        why.append(w)
+            if why_cborder and not bad:
+                chk.fail("C02: centroid-stage integral refinement at the centroid map's border displaces the crop; a keypoint "
+                         "of the animal leaves it: " + "; ".join(why_cborder[:2]),
+                         {**small, "frame": [fr.video, fr.frame_idx], "animal": mt["ai"]},
+                         {"pts": r["pts"], "bbox_tl": r["bbox_tl"]}, [SIG_CBORDER])
             if why_border and not bad:
                 chk.fail("C02: integral refinement exceeds half a cell where its patch crosses the crop-map border: "
                          + "; ".join(why_border[:2]), {**small, "frame": [fr.video, fr.frame_idx], "animal": mt["ai"]},
